@@ -59,6 +59,28 @@ def tokenTail (spec : Spec) (v : View) : List Nat :=
   | .synth pre _ => v.token.drop pre.length
   | _ => []
 
+/-- PADDING bytes a declarative layout itself puts at the very end of the payload -/
+def trailingPadQ (l : List QFrame) : Nat :=
+  (l.reverse.takeWhile fun f => match f with | .padding _ => true | _ => false).foldl
+    (fun acc f => match f with | .padding k => acc + k | _ => acc) 0
+
+/-- `some n`: the builder of datagram `i` is declarative and ends its payload with `n` PADDING bytes -/
+def ownTrailingPad (spec : Spec) (i : Nat) : Option Nat :=
+  match spec.builder with
+  | .nil => some 0
+  | .frames l => some (trailingPadQ l)
+  | .flight ds => (ds[i]?).map trailingPadQ
+  | _ => none
+
+/-- the packet ends in more PADDING than its declarative builder asked for -/
+def fillOnOversize (spec : Spec) (i : Nat) (v : View) : Bool :=
+  match ownTrailingPad spec i, v.frames with
+  | some own, some fs =>
+    (match fs.getLast? with
+     | some f => f.kind == .padding && decide (f.len > own)
+     | none => false)
+  | _, _ => false
+
 structure SizeVerdict where
   ok : Bool
   why : String := ""
@@ -74,7 +96,11 @@ def sizesOK (spec : Spec) (i : Nat) (v : View) (trailingZero : Bool) : SizeVerdi
   else if p.packetSize > 0 then
     if v.packetLen < p.packetSize then { ok := false, why := s!"packet {v.packetLen} < PacketSize {p.packetSize}" }
     else if v.trailingBytes ≠ 0 then { ok := false, why := s!"{v.trailingBytes} trailing bytes after an exact-size packet" }
-    -- packetLen > PacketSize: the content did not fit the requested size ("must leave room"): tolerated
+    -- packetLen > PacketSize: the content did not fit the requested size ("must leave room"): tolerated, but then
+    -- no exact-size PADDING may have been added: where the builder's own trailing PADDING is known from the
+    -- spec, the packet must not end in a longer run of PADDING
+    else if decide (v.packetLen > p.packetSize) && fillOnOversize spec i v then
+      { ok := false, why := s!"packet {v.packetLen} > PacketSize {p.packetSize} although it ends in PADDING the spec did not ask for" }
     else { ok := true }
   else
     let m := if spec.udpMin = 0 then 1200 else spec.udpMin
